@@ -132,6 +132,19 @@ ATOMS = ["x", "", " ", "\n", "x y", "{{t}}", "{{t|a|b=c}}", "{{t|\n a = 1\n}}", 
          "\u65e5\u672c", "\U0001d4b3", "a\x00b", "\u00a0", "&#x1F600;", "x\n\ny", "<pre>\n p\n</pre>", "<math>a<b</math>", "__TOC__", "~~~~", "#REDIRECT [[r]]"]
 
 
+# unclosed opener (its route fails at the end, so everything after it is read a second time through the route memo)
+# x a construct that itself gives up speculatively x a construct that succeeds speculatively afterwards (round-10 seed C02_r10:
+# a flag left over from the second stage was only visible to the third)
+CHAIN_OPENERS = ["", "{{x|", "{{x|k=", "{{{x|", "[[x|", "''", "'''", "<b>", "<ref>", "== ", "{|\n| ", "[http://o ", "<span a=\"", "* ''", "{{x|{{y|"]
+CHAIN_MIDS = ["[http://a [[http://b ", "[http://a [[l]] ", "[[http://b ", "[http://a {{t}} ", "[http://a <b>", "[http://a ''i", "[[l|[http://a ",
+              "{{t|[http://a [[http://b ", "http://a[[http://b ", "[http://a [[http://b [[http://c ", "[[l|[[m ", "{{t|{{{u| ", "<i>[[http://b "]
+CHAIN_TAILS = ["&amp; c]]", "&amp;", "{{t}}]]", "<!--c-->]]", "[[l]]]", "''x''", "<br>", "&#65;]] ]", "x]]", "]]", "]", "", "&amp; {{t}} [[l]] c]]"]
+
+
+def chain_inputs():
+    return [o + m + t for o in CHAIN_OPENERS for m in CHAIN_MIDS for t in CHAIN_TAILS]
+
+
 def nesting_inputs(tier, seed):
     """every construct inside every construct (all pairs, in four positions), and triples: a sample in the quick tier, all in the thorough one"""
     out = []
@@ -181,6 +194,9 @@ def make_inputs(tier, seed, n_quick=60000, n_thorough=3000000):
         skip = rng.random() < 0.3
         ctx = st["uri"] if rng.random() < 0.12 else 0
         items.append((text, ctx, skip))
+    # appended last and without drawing from rng, so that the stream above is exactly what it was before this family existed
+    for k, t in enumerate(chain_inputs()):
+        items.append((t, 0, k % 5 == 4))
     return items
 
 
